@@ -40,17 +40,17 @@ def install_engine_bc():
 
 
 def install_pool_bc_all():
-    """Every instruction of the pool set-up / tear-down code of the calling thread."""
+    """Every instruction of the pool set-up / tear-down code (calling thread) and of the
+    worker loop `process_items` becomes a scheduling point (process_node keeps 'shared')."""
     import uberjob._execution.run_function_on_graph as rfg
 
-    rf = rfg.run_function_on_graph.__code__
-    # only the outer function body, not process_node (handled by 'shared')
-    n = 0
-    mon_codes = [rfg.worker_pool.__wrapped__.__code__, rfg.thread.__code__, rfg.worker_thread.__code__]
+    install_engine_bc()
     mon = e1.sys.monitoring
-    if not e1._installed[0]:
-        e1.install_bc([], mode="all")
-    for c in mon_codes + [rf]:
+    codes = [rfg.worker_pool.__wrapped__.__code__, rfg.thread.__code__, rfg.worker_thread.__code__,
+             rfg.run_function_on_graph.__code__]
+    codes += [c for c in e1.nested_codes(rfg.worker_thread.__code__) if c.co_name == "process_items"]
+    n = 0
+    for c in codes:
         offs = e1.all_offsets(c)
         e1._bc_offsets[c] = e1._bc_offsets.get(c, frozenset()) | offs
         mon.set_local_events(e1.TOOL, c, mon.events.INSTRUCTION)
@@ -318,3 +318,23 @@ def engine_configs(ns, Ws, scheds, variants=True, only_join=False):
                 for W in Ws:
                     for sc in scheds:
                         yield {"n": n, "kedges": kedges, "lits": list(lits), "W": W, "sched": sc}
+
+
+# curated shapes beyond G_4 (topological numbering)
+CURATED5 = {
+    # two parents -> join -> sink which also waits for an independent node
+    "join-then-join": (5, [(0, 2), (1, 2), (2, 4), (3, 4)]),
+    "join-then-join-early-y": (5, [(1, 3), (2, 3), (3, 4), (0, 4)]),
+    "diamond-tail": (5, [(0, 1), (0, 2), (1, 3), (2, 3), (3, 4)]),
+    "double-diamond": (5, [(0, 1), (0, 2), (1, 3), (2, 3), (1, 4), (2, 4)]),
+    "wide-join": (5, [(0, 4), (1, 4), (2, 4), (3, 4)]),
+}
+
+
+def curated_configs(Ws, scheds, names=None):
+    for name, (n, edges) in CURATED5.items():
+        if names and name not in names:
+            continue
+        for W in Ws:
+            for sc in scheds:
+                yield {"n": n, "kedges": [(i, j, ("a",)) for i, j in edges], "lits": [], "W": W, "sched": sc, "shape": name}
